@@ -72,6 +72,8 @@ func genScenarios(r *rng) []*scenario {
 				k++
 				out = append(out, genHidden(r, k))
 			}
+		case "overrides":
+			out = append(out, genOverrides(r)...)
 		case "again":
 			for i := 0; i < *pubN; i++ {
 				k++
